@@ -12,7 +12,7 @@ import ast
 import copy
 
 from mlmverif import cfg as cfgm
-from mlmverif.core import (AnalysisError, Ctx, FuncInfo, is_self_attr, kwarg,
+from mlmverif.core import (parent_map, AnalysisError, Ctx, FuncInfo, is_self_attr, kwarg,
                            unparse, walk_no_nested)
 
 EXPLANATION = (
@@ -44,7 +44,7 @@ RPC_EXEMPT = {'next_from_generator': 'legacy stub: no server binding and no'
 
 
 def run(ctx: Ctx):
-  for r in (r1, r2, r3, r4, r5, r6, r7, r9, r13, r14, r15, r16):
+  for r in (r1, r2, r3, r4, r5, r6, r7, r9, r13, r14, r15, r16, r17, r18):
     ctx.guard(r)
   from mlmverif.props import c04
   from mlmverif.props._queue import model as qmodel
@@ -257,6 +257,82 @@ def r16(ctx: Ctx):
                        f' `*{h.name}.args`: only the first return value survives, and a producer that returned nothing'
                        ' is reported as having returned None', node=r_)
   ctx.floor(rule, 3, n)
+
+
+def r17(ctx: Ctx):
+  rule = 'R-C14-17'
+  ctx.rule(rule, '"evaluating an expression through a worker ... returns the same value / raises an exception of the same type'
+           ' and message": the handler that turns a failure into the pickled answer cannot fail itself — inside an'
+           ' `except ... as e` block of the server / client modules nothing subscripts `e.args` with a constant index'
+           ' outside a test of `e.args` (a message-less `raise ValueError` has no args[0]: the handler would die with'
+           ' IndexError and the client would see that instead of the original error)')
+  n = 0
+  for mod in (CS, CU):
+    mi = ctx.repo.module(mod)
+    fns = list(mi.functions.values()) + [m_ for c in mi.classes.values() for m_ in c.methods.values()]
+    for fi in fns:
+      for h in ast.walk(fi.node):
+        if not (isinstance(h, ast.ExceptHandler) and h.name):
+          continue
+        n += 1
+        pm = None
+        bad = None
+        for x in ast.walk(h):
+          if isinstance(x, ast.Subscript) and unparse(x.value) == f'{h.name}.args' and not isinstance(x.slice, ast.Slice):
+            pm = pm or parent_map(h)
+            q, guarded = x, False
+            while q is not None and q is not h:
+              par = pm.get(q)
+              if isinstance(par, (ast.If, ast.IfExp)) and any(unparse(y) == f'{h.name}.args' for y in ast.walk(par.test)):
+                guarded = True
+              q = par
+            if not guarded:
+              bad = x
+        what = f'{fi.qualname}: the handler of `{h.name}` does not index {h.name}.args unguarded'
+        if bad is None:
+          ctx.ok(rule, fi, what, h)
+        else:
+          ctx.fail(rule, fi, what,
+                   f'`{unparse(bad)}` in the `except ... as {h.name}` block of {fi.qualname}: an exception raised without a'
+                   ' message has empty args, the handler itself raises IndexError and the caller receives that instead of'
+                   ' the original exception type and message', node=bad)
+  ctx.floor(rule, 5, n)
+
+
+def r18(ctx: Ctx):
+  rule = 'R-C14-18'
+  ctx.rule(rule, '"remote evaluation is observationally the same as local evaluation" for cached calls that are sent again:'
+           ' the equality of lazy calls tests the IDENTITY (`self.id == other.id`) before it compares function, args and'
+           ' kwargs — a re-sent copy of a cached call (same id, unpickled afresh) is then recognised without comparing'
+           ' its arguments element-wise, which raises for multi-element arrays ("truth value of an array is ambiguous")'
+           ' inside the cache lookup. In the `or` of __eq__ the id comparison is the first disjunct')
+  n = 0
+  mi = ctx.repo.module('chainables.lazy_fns')
+  for ci in mi.classes.values():
+    fi = ci.methods.get('__eq__')
+    if fi is None:
+      continue
+    for b in ast.walk(fi.node):
+      if not (isinstance(b, ast.BoolOp) and isinstance(b.op, ast.Or)):
+        continue
+      def is_id(e):
+        return isinstance(e, ast.Compare) and len(e.ops) == 1 and isinstance(e.ops[0], ast.Eq) and {
+            unparse(e.left).split('.')[-1].lstrip('_'), unparse(e.comparators[0]).split('.')[-1].lstrip('_')} == {'id'}
+      ids = [i for i, v in enumerate(b.values) if is_id(v)]
+      structural = [i for i, v in enumerate(b.values) if not is_id(v) and any(
+          isinstance(y, ast.Attribute) and y.attr in ('args', 'kwargs', 'value') for y in ast.walk(v))]
+      if not ids or not structural:
+        continue
+      n += 1
+      what = f'{ci.name}.__eq__: identity is tested before the structural comparison'
+      if min(ids) < min(structural):
+        ctx.ok(rule, fi, what, b)
+      else:
+        ctx.fail(rule, fi, what,
+                 f'{ci.name}.__eq__ compares value/args/kwargs before `{unparse(b.values[ids[0]])}`: two copies of the same'
+                 ' cached call (same id) whose arguments contain a multi-element array raise ValueError in the cache'
+                 ' lookup instead of being recognised — every later remote evaluation of that call fails', node=b)
+  ctx.floor(rule, 1, n)
 
 
 
@@ -851,6 +927,13 @@ from mlmverif.selfcheck import B, OK  # noqa: E402
 _S = 'chainables/courier_server.py'
 _U = 'utils/courier_utils.py'
 VARIANTS = [
+    B('error-log-indexes-args', 'chainables/courier_server.py',
+      "            'chainable: %s', f'maybe_make exception for {maybe_lazy}.'", "            'chainable: %s', f'maybe_make exception for {maybe_lazy}: {e.args[0]}'", 'R-C14-17'),
+    OK('error-log-formats-the-exception', 'chainables/courier_server.py',
+       "            'chainable: %s', f'maybe_make exception for {maybe_lazy}.'", "            'chainable: %s', f'maybe_make exception for {maybe_lazy}: {e}'"),
+    B('lazyfn-eq-structural-first', 'chainables/lazy_fns.py',
+      "        self.id == other.id\n        or (\n            self.value == other.value\n            and self.args == other.args\n            and self.kwargs == other.kwargs\n        )\n",
+      "        (\n            self.value == other.value\n            and self.args == other.args\n            and self.kwargs == other.kwargs\n        )\n        or self.id == other.id\n", 'R-C14-18'),
     B('remote-getattr-refuses-private-names', 'utils/courier_utils.py',
       '  def __getattr__(self, name: str) -> RemoteObject:\n    return RemoteObject.new(',
       "  def __getattr__(self, name: str) -> RemoteObject:\n    if name.startswith('_'):\n      raise AttributeError(name)\n    return RemoteObject.new(", 'R-C14-15'),
